@@ -28,11 +28,21 @@
                           without error, R x y := canon (read x) = canon (read y); then
                           F_fix is the one-step statement C11_fix and the conclusion is the
                           property for cycle counts 2..k.
-   NOT proved (covered by the correspondence runs of harness/props/c11.py only): C11_fix itself,
-   i.e. the composition through the reader — that the header lines format_item prints are parsed
-   back to the same items (C03 + C04 restricted to writer normal form), that the data lines are
-   parsed back to the printed tokens (C01), and that F respects R.  F15 (a ~Curves unit starting
-   with '.') is the known place where writer normal form is not closed. *)
+   The composition through the reader is in the two appended parts of this file:
+     FILE LEVEL       C11_reread_fixed_point_partial: reading the written text is described by the
+                      object m' the write left in memory (C01 + C03 at file level);
+     THE SECOND CYCLE C11_second_cycle, C11_cycles_same_text, C11_cycles_iter: write applied to the
+                      object READ BACK returns the same text, for any number of cycles, on the
+                      decidable domain cycle_hypsb (the first written form is already in normal
+                      form: every header item, every data token is stable under one read; the
+                      STRT/STOP/STEP refresh is not triggered).
+   NOT proved (covered by the correspondence runs of harness/props/c11.py only): the second cycle
+   OUTSIDE that domain, where the second text differs from the first while the content is the same
+   numerically (C11_second_text_refuted: STRT printed "1.00000", next time "1.0"), and the closure
+   of the domain (that the second written form of an arbitrary file is in it).  See the comment of
+   THE SECOND CYCLE for the list.  F15/F25 (a ~Curves unit starting with '.', a mnemonic ending
+   with '.') and the nested-bracket unit (lasio fix b7a2e2d, found while proving the second cycle)
+   were places where lasio itself drifted. *)
 From Coq Require Import List NArith ZArith Bool Arith String.
 Import ListNotations.
 Require Import PyStr Regex NumLit Num Tables SectionParse DataRead Read TextWrap Writer
@@ -206,19 +216,11 @@ Print Assumptions C11_iter_from_fix.
         Hence R (W o m) is a function of the fixed point m' of the writer: the information the
         first cycle keeps is exactly what m' holds; nothing further can be lost by writing
         again WITHOUT re-reading.
-     `_partial`, what is missing for  R (W o (R (W o m))) ~ R (W o m)  (write applied to the
-     object READ BACK instead of the object left in memory):
-        (i)   closure of the domain: that the object read back (l with index_initial = its
-              index column) again satisfies file_hypsb after a write — conformance of the
-              re-read items (conf_item is about the texts str(value) that num() produced) —
-              F15 (a ~Curves unit starting with '.') is the known place where it fails;
-        (ii)  that write changes nothing observable on an object it has itself produced and
-              read back: STRT/STOP/STEP refresh on re-read values (C11_refresh_idem_values is
-              the in-memory half), standardize_value on values num() returns (C11_values_fixed
-              is the in-memory half), expected_item o expected_item = expected_item;
-        (iii) the ORACLE hypothesis Hfix (fmt % (fmt % x) = fmt % x as texts) to conclude that
-              the tokens of the second cycle are those of the first (C11_data_tokens_fixed).
-        The correspondence runs of harness/props/c11.py cover (i)-(iii) empirically. *)
+     `_partial`: this theorem stops at the re-read; what write does with the object READ BACK
+     (R (W o (R (W o m))) vs R (W o m)) is THE SECOND CYCLE below (C11_second_cycle): proved on the
+     decidable domain cycle_hypsb; outside it (text changes once, content numerically the same)
+     and for the closure of the domain the correspondence runs of harness/props/c11.py are the
+     only evidence. *)
 Require Import Sections WriteOptionsProofs WriteHeaderProofs WriteReadProofs WriteDataProofs WriteDataTextProofs ItemsBindProofs
   FileRoundTripText FileRoundTripBlocks FileRoundTripFind FileRoundTripFirstPass FileRoundTripHeader
   FileRoundTripData FileRoundTripLines FileRoundTrip FileRoundTripMain FileRoundTripCheck.
@@ -294,3 +296,323 @@ Example C11_ex_two_cycles : forall w,
 Proof. intros [[|]|]; vm_compute; split; reflexivity. Qed.
 
 Print Assumptions C11_reread_fixed_point_partial.
+
+(* ====================================================================================== *)
+(* THE SECOND CYCLE (appended).  Proofs in Proofs/SecondCycle*.v.                           *)
+(* ====================================================================================== *)
+(* write applied to the object READ BACK (l with index_initial = its index column, as
+   LASFile.read leaves it: reread_index = the pipeline interpreter's index_initial_of).
+
+     C11_read_canonical   every header section of a read result is what appending its own items
+                          (plain session mnemonics) to an empty section gives: the session
+                          mnemonics of a read result are a function of the original mnemonics
+                          (any text, any option).  Hence the object read back from a written text
+                          is DETERMINED by header_read_back (reb: canon_is_reb).
+     C11_second_header    (step 1, with step 3 inside) hs = first written form, l = the object
+                          read back from it.  When every item of hs is stable under one read
+                          (stable_item: reading its line back — mnemonic case-mapped, unit
+                          through strip_brackets, value through str() and num() — and normalising
+                          the value as the writer does prints the same mnemonic, unit and value
+                          text), WRAP / VERS / STRT / STOP / STEP name one item each, the units of
+                          STRT/STOP/STEP and of the first curve agree and the STRT/STOP/STEP
+                          refresh is not triggered (need_of = Some false), write_sections applied
+                          to l gives the SAME item lines, wrap flag and version, and leaves l
+                          (values normalised) in memory: the refresh and the WRAP step change
+                          nothing on an object lasio has written and read back.
+     C11_refresh_not_triggered  (step 3) need_of = Some false from: the STOP value read back equals
+                          (numeq oracle) the last index value read back, no index value is NaN.
+     C11_back_okb_of_Hfix, C11_second_data_tokens, C11_second_data_lines   (step 2) under the
+                          oracle hypothesis Hfix, when every cell comes back as the same kind of
+                          cell (a number not read as NaN and — outside the index column — not equal
+                          to NULL; NaN through the NULL text as NaN), every printed token is a
+                          fixed point of read-then-print (back_okb); then the token matrix of the
+                          second write is that of the first, and with it the data lines and the ~A
+                          line (mnemonics_header: the curves' session mnemonics are those the
+                          reader assigns).
+     C11_second_cycle     (step 4)  write o m = WOk text m'  and the domain
+                            file_hypsb (C01/C03 file round trip) + cycle_hypsb (decidable, on hs)
+                          give  read ro text = ROk l  and
+                            write o (mkmlas l (reread_index l)) = WOk text (l normalised):
+                          the second write returns the SAME TEXT, so the next read returns the same
+                          l, and so on:
+     C11_cycle_fixed, C11_cycles_same_text, C11_cycles_iter (C11_iter instantiated with X = texts,
+                          R = equality of texts — finer than equality of content, so that the
+                          respects-R premise is trivial —, F = one load/save cycle): for every k the
+                          text after k cycles is the text of the first write.
+
+   WHAT IS STILL MISSING (named): the domain cycle_hypsb is the set of written forms that are
+   already in normal form.  Outside it the second text may differ from the first although the
+   CONTENT does not drift, and that case is NOT proved (correspondence runs only):
+     (a) the first write refreshed STRT/STOP/STEP (or a value was set as text): they are printed
+         with the index format ("1.00000"), read back as numbers and printed through str() the
+         next time ("1.0") — C11_second_text_refuted is such a file: the second text differs,
+         the third equals the second, the second written form IS in the domain (so the theorem
+         applies from the second text on); replayed on lasio: same behaviour, content equal;
+     (b) a data value that the format rounds onto NULL (printed "-999.25000", read back NaN,
+         printed "-999.25");
+     (c) a unit in brackets "(M)", mixed-case mnemonics under mnemonic_case upper/lower, unstripped
+         ~Other lines — these change on the FIRST read only (strip_brackets is idempotent since
+         lasio fix b7a2e2d — before it a unit in three pairs of brackets lost one pair per cycle,
+         a genuine drift found while proving this theorem);
+     (d) closure: that the second written form of an arbitrary file is in the domain (it would
+         need conformance of the re-read items and the numeric oracles num(str(x)) ~ x). *)
+Require Import JunkProofs SecondCycleRead SecondCycleItems SecondCycleHeader SecondCycleData SecondCycle WriteShow.
+
+Theorem C11_read_canonical : forall fhex fstr numeq ro text l,
+  read fhex fstr numeq ro text = ROk l -> canon_las l.
+Proof. exact read_canon. Qed.
+
+Theorem C11_canonical_determined : forall fstr ro k items (s : section),
+  canon_sect s -> s_transforms s = trc (o_mcase ro) ->
+  map meta (s_items s) = map (fun it => meta (expected_item fstr k (o_mcase ro) it)) items ->
+  s = mksect (reb fstr ro k items) (trc (o_mcase ro)).
+Proof. exact canon_is_reb. Qed.
+
+Theorem C11_second_header :
+  forall fmtv fmt_diff (fmt_pi : list N -> list N) fstr fzero numeq ro ver wrapo ifmt m hs,
+  write_sections fmtv fmt_diff fstr fzero numeq ver wrapo ifmt m = Some hs ->
+  forall l,
+  l_version l = mksect (reb fstr ro KVersion (hs_vers_items hs)) (trc (o_mcase ro)) ->
+  l_well l = mksect (reb fstr ro KWell (s_items (l_well (hs_las hs)))) (trc (o_mcase ro)) ->
+  l_curves l = mksect (reb fstr ro KCurves (s_items (l_curves (hs_las hs)))) (trc (o_mcase ro)) ->
+  l_params l = mksect (reb fstr ro KParameter (s_items (l_params (hs_las hs)))) (trc (o_mcase ro)) ->
+  Forall (stable_item fstr fzero ro KVersion false) (hs_vers_items hs) ->
+  Forall (stable_item fstr fzero ro KWell true) (s_items (l_well (hs_las hs))) ->
+  Forall (stable_item fstr fzero ro KCurves false) (s_items (l_curves (hs_las hs))) ->
+  Forall (stable_item fstr fzero ro KParameter true) (s_items (l_params (hs_las hs))) ->
+  forall wit vit,
+  filter (in_class (o_mcase ro) k_wrap) (hs_vers_items hs) = [wit] ->
+  (forall b, wrapo = Some b -> expected_item fstr KVersion (o_mcase ro) wit = wrap_item b) ->
+  filter (in_class (o_mcase ro) k_vers) (hs_vers_items hs) = [vit] ->
+  std_version (hs_version hs) -> fstr_vers_ok fstr -> dlm_ok fstr (o_mcase ro) hs ->
+  forall sit pit eit c0 crest,
+  filter (in_class (o_mcase ro) k_strt) (s_items (l_well (hs_las hs))) = [sit] ->
+  filter (in_class (o_mcase ro) k_stop) (s_items (l_well (hs_las hs))) = [pit] ->
+  filter (in_class (o_mcase ro) k_step) (s_items (l_well (hs_las hs))) = [eit] ->
+  s_items (l_curves (hs_las hs)) = c0 :: crest ->
+  i_unit sit = i_unit c0 -> i_unit pit = i_unit c0 -> i_unit eit = i_unit c0 ->
+  forall ii, need_of numeq (mkmlas l ii) = Some false ->
+  exists vsw2,
+    write_sections fmtv fmt_diff fstr fzero numeq ver wrapo ifmt (mkmlas l ii) =
+    Some (mkhs (hs_wrap hs) (hs_version hs) vsw2 (hs_lv hs) (hs_lw hs) (hs_lc hs) (hs_lp hs) (norm_las fzero l)).
+Proof. exact second_write_sections. Qed.
+
+Theorem C11_stable_itemb_ok : forall fstr fzero ro k std it,
+  stable_itemb fstr fzero ro k std it = true -> stable_item fstr fzero ro k std it.
+Proof. exact stable_itemb_ok. Qed.
+
+Theorem C11_refresh_not_triggered : forall fstr numeq fhex ro hs l pit c pn T,
+  l_well l = mksect (reb fstr ro KWell (s_items (l_well (hs_las hs)))) (trc (o_mcase ro)) ->
+  l_data l = data_result fhex numeq ro pn c T -> (0 < c)%nat ->
+  filter (in_class (o_mcase ro) k_stop) (s_items (l_well (hs_las hs))) = [pit] ->
+  stop_agreesb fstr numeq fhex ro pit T = true -> index_reflb numeq fhex T = true ->
+  need_of numeq (mkmlas l (Some (nth 0%nat (l_data l) []))) = Some false.
+Proof. exact second_need. Qed.
+
+Theorem C11_back_okb_of_Hfix : forall fmtv fhex numeq ro pn o nt,
+  (forall f t, fmtv f (fmtv f t) = fmtv f t) ->
+  forall rows, forallb (row_backb fmtv fhex numeq ro pn o nt 0) rows = true ->
+  back_okb fmtv fhex numeq ro pn o nt (tok_matrix fmtv o nt rows) = true.
+Proof. exact back_okb_of_Hfix. Qed.
+
+Theorem C11_second_data_tokens :
+  forall fmtv (fmt_pi : list N -> list N) fhex (fstr : list N -> list N) numeq ro pn o nt c T,
+  (0 < c)%nat -> Forall (fun toks : list (list N) => List.length toks = c) T ->
+  back_okb fmtv fhex numeq ro pn o nt T = true ->
+  forall l', l_data l' = data_result fhex numeq ro pn c T -> List.length (s_items (l_curves l')) = c ->
+  tok_matrix fmtv o nt (las_rows l') = T.
+Proof. exact second_tok_matrix. Qed.
+
+Theorem C11_second_data_lines : forall fmtv fmt_pi fstr o nt hs1 hs2,
+  las_null_text fstr (hs_las hs1) = Some nt -> las_null_text fstr (hs_las hs2) = Some nt ->
+  tok_matrix fmtv o nt (las_rows (hs_las hs2)) = tok_matrix fmtv o nt (las_rows (hs_las hs1)) ->
+  hs_wrap hs2 = hs_wrap hs1 ->
+  (wo_mnemonics_header o = true ->
+   map i_sess (s_items (l_curves (hs_las hs2))) = map i_sess (s_items (l_curves (hs_las hs1)))) ->
+  write_data fmtv fmt_pi fstr o hs2 = write_data fmtv fmt_pi fstr o hs1.
+Proof. exact write_data_same. Qed.
+
+Theorem C11_second_cycle :
+  forall fmtv fmt_diff fmt_pi fstr fzero numeq fhex ro o m text m' hs dl rts nt,
+  write fmtv fmt_diff fmt_pi fstr fzero numeq o m = WOk text m' ->
+  write_sections fmtv fmt_diff fstr fzero numeq (wo_version o) (wo_wrap o) (col_fmt o 0%nat) m = Some hs ->
+  dsh_of fmtv fmt_pi fstr o hs = Some dl ->
+  las_null_text fstr (hs_las hs) = Some nt ->
+  opt_all (map (row_text fmtv fmt_pi o (Some nt) 0%nat) (las_rows (hs_las hs))) = Some rts ->
+  file_hypsb fmtv fmt_pi fstr fhex ro o hs nt = true -> o_ignore_data ro = false ->
+  cycle_hypsb fmtv fstr fzero numeq fhex ro o hs nt = true ->
+  exists l,
+    read fhex fstr numeq ro text = ROk l /\
+    write fmtv fmt_diff fmt_pi fstr fzero numeq o (mkmlas l (reread_index l))
+      = WOk text (mkmlas (norm_las fzero l) (reread_index l)).
+Proof. exact second_cycle. Qed.
+
+Theorem C11_cycle_fixed :
+  forall fmtv fmt_diff fmt_pi fstr fzero numeq fhex ro o m text m' hs dl rts nt,
+  write fmtv fmt_diff fmt_pi fstr fzero numeq o m = WOk text m' ->
+  write_sections fmtv fmt_diff fstr fzero numeq (wo_version o) (wo_wrap o) (col_fmt o 0%nat) m = Some hs ->
+  dsh_of fmtv fmt_pi fstr o hs = Some dl ->
+  las_null_text fstr (hs_las hs) = Some nt ->
+  opt_all (map (row_text fmtv fmt_pi o (Some nt) 0%nat) (las_rows (hs_las hs))) = Some rts ->
+  file_hypsb fmtv fmt_pi fstr fhex ro o hs nt = true -> o_ignore_data ro = false ->
+  cycle_hypsb fmtv fstr fzero numeq fhex ro o hs nt = true ->
+  cycle fmtv fmt_diff fmt_pi fstr fzero numeq fhex ro o text = Some text.
+Proof. exact cycle_fixed. Qed.
+
+Theorem C11_cycles_same_text :
+  forall fmtv fmt_diff fmt_pi fstr fzero numeq fhex ro o m text m' hs dl rts nt,
+  write fmtv fmt_diff fmt_pi fstr fzero numeq o m = WOk text m' ->
+  write_sections fmtv fmt_diff fstr fzero numeq (wo_version o) (wo_wrap o) (col_fmt o 0%nat) m = Some hs ->
+  dsh_of fmtv fmt_pi fstr o hs = Some dl ->
+  las_null_text fstr (hs_las hs) = Some nt ->
+  opt_all (map (row_text fmtv fmt_pi o (Some nt) 0%nat) (las_rows (hs_las hs))) = Some rts ->
+  file_hypsb fmtv fmt_pi fstr fhex ro o hs nt = true -> o_ignore_data ro = false ->
+  cycle_hypsb fmtv fstr fzero numeq fhex ro o hs nt = true ->
+  forall k, Nat.iter k (cycle_opt fmtv fmt_diff fmt_pi fstr fzero numeq fhex ro o) (Some text) = Some text.
+Proof. exact cycles_same_text. Qed.
+
+(* C11_iter instantiated: X = texts (None: a cycle failed), F = one load/save cycle, R = equality
+   of texts, P = "is the text of the first write" *)
+Theorem C11_cycles_iter :
+  forall fmtv fmt_diff fmt_pi fstr fzero numeq fhex ro o m text m' hs dl rts nt,
+  write fmtv fmt_diff fmt_pi fstr fzero numeq o m = WOk text m' ->
+  write_sections fmtv fmt_diff fstr fzero numeq (wo_version o) (wo_wrap o) (col_fmt o 0%nat) m = Some hs ->
+  dsh_of fmtv fmt_pi fstr o hs = Some dl ->
+  las_null_text fstr (hs_las hs) = Some nt ->
+  opt_all (map (row_text fmtv fmt_pi o (Some nt) 0%nat) (las_rows (hs_las hs))) = Some rts ->
+  file_hypsb fmtv fmt_pi fstr fhex ro o hs nt = true -> o_ignore_data ro = false ->
+  cycle_hypsb fmtv fstr fzero numeq fhex ro o hs nt = true ->
+  forall k, (1 <= k)%nat ->
+    Nat.iter k (cycle_opt fmtv fmt_diff fmt_pi fstr fzero numeq fhex ro o) (Some text)
+    = cycle_opt fmtv fmt_diff fmt_pi fstr fzero numeq fhex ro o (Some text).
+Proof.
+  intros fmtv fmt_diff fmt_pi fstr fzero numeq fhex ro o m text m' hs dl rts nt Hw Hs Hdl Hnt Hrts Hf Hig Hc k Hk.
+  pose proof (cycle_fixed fmtv fmt_diff fmt_pi fstr fzero numeq fhex ro o m text m' hs dl rts nt Hw Hs Hdl Hnt Hrts Hf Hig Hc) as Hfix.
+  apply (C11_iter (option (list N)) (cycle_opt fmtv fmt_diff fmt_pi fstr fzero numeq fhex ro o) eq (fun x => x = Some text)).
+  - reflexivity.
+  - intros x y z -> ->. reflexivity.
+  - intros x y ->. reflexivity.
+  - intros x ->. cbn [cycle_opt]. rewrite Hfix. cbn [cycle_opt]. rewrite Hfix. reflexivity.
+  - reflexivity.
+  - exact Hk.
+Qed.
+
+(* reread_index is what the pipeline interpreter of the correspondence gives a LASFile after read *)
+Example C11_reread_index_is_pipeline : forall l, reread_index l = index_initial_of l.
+Proof. reflexivity. Qed.
+
+(* ---- non-vacuity ------------------------------------------------------------------------------------ *)
+(* ex_m (above), wrap = None / True / False: in the domain; the theorem's conclusion, computed *)
+Example C11_ex_cycle_domain : forall w,
+  cycle_hypsb t_fmtv t_fstr t_fzero t_numeq t_fhex t_ro (ex_o w) (t_hs w) (s2l "-999.25") = true.
+Proof. intros [[|]|]; vm_compute; reflexivity. Qed.
+
+Example C11_ex_cycle : forall w k,
+  Nat.iter k (cycle_opt t_fmtv t_fmt_diff t_fmt_pi t_fstr t_fzero t_numeq t_fhex t_ro (ex_o w)) (Some (t_text w)) = Some (t_text w).
+Proof.
+  intros w k.
+  assert (Hw : exists m', ex_write (ex_o w) ex_m = WOk (t_text w) m') by (destruct w as [[|]|]; eexists; vm_compute; reflexivity).
+  destruct Hw as (m' & Hw). destruct (C11_ex_file_domain w) as (Hs & Hf & _).
+  assert (Hd : exists dl rts, dsh_of t_fmtv t_fmt_pi t_fstr (ex_o w) (t_hs w) = Some dl /\
+             opt_all (map (row_text t_fmtv t_fmt_pi (ex_o w) (Some (s2l "-999.25")) 0%nat) (las_rows (hs_las (t_hs w)))) = Some rts)
+    by (destruct w as [[|]|]; eexists; eexists; split; vm_compute; reflexivity).
+  destruct Hd as (dl & rts & Hdl & Hrts).
+  apply (C11_cycles_same_text t_fmtv t_fmt_diff t_fmt_pi t_fstr t_fzero t_numeq t_fhex t_ro (ex_o w) ex_m (t_text w) m'
+           (t_hs w) dl rts (s2l "-999.25") Hw Hs Hdl); [|exact Hrts|exact Hf|reflexivity|apply C11_ex_cycle_domain].
+  destruct w as [[|]|]; vm_compute; reflexivity.
+Qed.
+
+(* a richer file: read with mnemonic_case upper (case-insensitive look-ups), written with
+   version=2.0, wrap=True (data_width 30), mnemonics_header=True; duplicated curve mnemonic
+   (session mnemonics A:1, A:2), API kept as text, an integer parameter, NaN in two columns,
+   ~Other text *)
+Definition x_it (name sess unit : string) (v : hval) (d : string) : hitem :=
+  mkitem (s2l name) (s2l sess) (s2l unit) v (s2l d).
+Definition x_las : las :=
+  mklas (mksect [ex_it "VERS" "" (VFloat (s2l "2.0")) "v"; ex_it "WRAP" "" (VStr (s2l "NO")) "w"] true)
+        (mksect [ex_it "STRT" "M" (VFloat (s2l "1.0")) ""; ex_it "STOP" "M" (VFloat (s2l "3.0")) "";
+                 ex_it "STEP" "M" (VFloat (s2l "1.0")) ""; ex_it "NULL" "" (VFloat (s2l "-999.25")) "";
+                 ex_it "API" "" (VStr (s2l "007")) "api number"; ex_it "LOC" "" (VStr (s2l "12-3 W")) "location"] true)
+        (mksect [ex_it "DEPT" "M" (VStr []) "depth"; x_it "A" "A:1" "V" (VStr []) "first";
+                 x_it "A" "A:2" "V" (VStr []) "second"] true)
+        (mksect [ex_it "BHT" "DEGC" (VFloat (s2l "35.5")) "temp"; ex_it "RUN" "" (VInt 2) "run"] true)
+        (s2l "note 1" ++ [10] ++ s2l "note 2") [] [ex_idx; [CNum (s2l "5"); CNaN; CNum (s2l "7")]; [CNum (s2l "0.5"); CNum (s2l "1.5"); CNaN]] false.
+Definition x_m : mlas := mkmlas x_las (Some ex_idx).
+Definition x_o : wopts := mkwopts (Some W20) (Some true) (s2l "%.5f") [] LAuto (s2l " ") (s2l " ") 30 60 (s2l "~ASCII") true.
+Definition x_ro : ropts := mkropts false CaseUpper true true false.
+Definition x_hs : hdr_sections :=
+  match write_sections t_fmtv t_fmt_diff t_fstr t_fzero t_numeq (wo_version x_o) (wo_wrap x_o) (col_fmt x_o 0%nat) x_m with
+  | Some hs => hs | None => mkhs false V20 [] [] [] [] [] empty_las end.
+Definition x_text : list N := match ex_write x_o x_m with WOk t _ => t | WErr _ => [] end.
+
+Example C11_ex2_domain :
+  write_sections t_fmtv t_fmt_diff t_fstr t_fzero t_numeq (wo_version x_o) (wo_wrap x_o) (col_fmt x_o 0%nat) x_m = Some x_hs /\
+  file_hypsb t_fmtv t_fmt_pi t_fstr t_fhex x_ro x_o x_hs (s2l "-999.25") = true /\
+  cycle_hypsb t_fmtv t_fstr t_fzero t_numeq t_fhex x_ro x_o x_hs (s2l "-999.25") = true /\
+  map i_sess (s_items (l_curves (hs_las x_hs))) = [s2l "DEPT"; s2l "A:1"; s2l "A:2"] /\
+  cycle t_fmtv t_fmt_diff t_fmt_pi t_fstr t_fzero t_numeq t_fhex x_ro x_o x_text = Some x_text.
+Proof. repeat split; vm_compute; reflexivity. Qed.
+
+(* ---- outside the domain: the text changes once, the content does not -------------------------------- *)
+(* oracles with a genuine "%.5f" and str():  1.0 -> "1.00000",  str(float("1.00000")) = "1.0" *)
+Definition r_tab : list (list N * list N) :=
+  [(s2l "1.0", s2l "1.00000"); (s2l "2.0", s2l "2.00000"); (s2l "3.0", s2l "3.00000")].
+Fixpoint r_fwd (t : list (list N * list N)) (x : list N) : list N :=
+  match t with [] => x | (a, b) :: t' => if str_eqb x a then b else r_fwd t' x end.
+Fixpoint r_bwd (t : list (list N * list N)) (x : list N) : list N :=
+  match t with [] => x | (a, b) :: t' => if str_eqb x b then a else r_bwd t' x end.
+Definition r_fmtv (f t : list N) : list N := r_fwd r_tab t.
+Definition r_fstr (t : list N) : list N := r_bwd r_tab t.
+Definition r_numeq (a b : list N) : bool := str_eqb (r_fstr a) (r_fstr b).
+(* a file whose STRT/STOP/STEP are stale (0): the first write refreshes them *)
+Definition r_las : las :=
+  mklas (mksect [ex_it "VERS" "" (VFloat (s2l "2.0")) "v"; ex_it "WRAP" "" (VStr (s2l "NO")) "w"] false)
+        (mksect [ex_it "STRT" "M" (VFloat (s2l "0")) ""; ex_it "STOP" "M" (VFloat (s2l "0")) "";
+                 ex_it "STEP" "M" (VFloat (s2l "0")) ""; ex_it "NULL" "" (VFloat (s2l "-999.25")) ""] false)
+        (mksect [ex_it "DEPT" "M" (VStr []) "depth"; ex_it "A" "V" (VStr []) "a"] false)
+        (mksect [] false)
+        [] [] [[CNum (s2l "1.0"); CNum (s2l "2.0"); CNum (s2l "3.0")]; [CNum (s2l "5"); CNaN; CNum (s2l "7")]] false.
+Definition r_idx : list cell := [CNum (s2l "1.0"); CNum (s2l "2.0"); CNum (s2l "3.0")].
+Definition r_m : mlas := mkmlas r_las (Some r_idx).
+Definition r_o := ex_o None.
+Definition r_wsec := write_sections r_fmtv t_fmt_diff r_fstr t_fzero r_numeq None None (col_fmt r_o 0%nat).
+Definition r_cycle := cycle r_fmtv t_fmt_diff t_fmt_pi r_fstr t_fzero r_numeq t_fhex t_ro r_o.
+
+Example C11_second_text_refuted :
+  match write r_fmtv t_fmt_diff t_fmt_pi r_fstr t_fzero r_numeq r_o r_m, r_wsec r_m with
+  | WOk t1 _, Some hs1 =>
+      file_hypsb r_fmtv t_fmt_pi r_fstr t_fhex t_ro r_o hs1 (s2l "-999.25") = true /\
+      cycle_hypsb r_fmtv r_fstr t_fzero r_numeq t_fhex t_ro r_o hs1 (s2l "-999.25") = false /\
+      match read t_fhex r_fstr r_numeq t_ro t1 with
+      | ROk l1 =>
+          match r_cycle t1, r_wsec (mkmlas l1 (reread_index l1)) with
+          | Some t2, Some hs2 =>
+              t2 <> t1 /\ r_cycle t2 = Some t2 /\
+              file_hypsb r_fmtv t_fmt_pi r_fstr t_fhex t_ro r_o hs2 (s2l "-999.25") = true /\
+              cycle_hypsb r_fmtv r_fstr t_fzero r_numeq t_fhex t_ro r_o hs2 (s2l "-999.25") = true /\
+              match read t_fhex r_fstr r_numeq t_ro t2 with
+              | ROk l2 => l_data l2 = l_data l1 /\
+                          map i_value (firstn 3 (s_items (l_well l1))) = [VFloat (s2l "1.00000"); VFloat (s2l "3.00000"); VFloat (s2l "1.00000")] /\
+                          map i_value (firstn 3 (s_items (l_well l2))) = [VFloat (s2l "1.0"); VFloat (s2l "3.0"); VFloat (s2l "1.0")]
+              | RErr _ => False
+              end
+          | _, _ => False
+          end
+      | RErr _ => False
+      end
+  | _, _ => False
+  end.
+Proof. vm_compute. repeat split; try reflexivity. discriminate. Qed.
+
+Print Assumptions C11_read_canonical.
+Print Assumptions C11_canonical_determined.
+Print Assumptions C11_second_header.
+Print Assumptions C11_stable_itemb_ok.
+Print Assumptions C11_refresh_not_triggered.
+Print Assumptions C11_back_okb_of_Hfix.
+Print Assumptions C11_second_data_tokens.
+Print Assumptions C11_second_data_lines.
+Print Assumptions C11_second_cycle.
+Print Assumptions C11_cycle_fixed.
+Print Assumptions C11_cycles_same_text.
+Print Assumptions C11_cycles_iter.
